@@ -500,10 +500,17 @@ class Taint:
     # ------------------------------------------------------------------ sinks
     def sinks(self):
         out = []
-        for b in self.reach.values():
+        for b in sorted(self.reach.values(), key=lambda x: x.path):
             if "::promoted[" in b.path:
                 continue
             out.extend(self.body_sinks(b))
+        # keys name the enclosing function (closure numbering is not part of the key); ordinals count per function
+        ordinal = defaultdict(int)
+        for s in out:
+            root = s.body.root or s.body.path
+            base = "%s#%s:%s" % (root, s.kind, s.detail)
+            s.key = "%s#%d" % (base, ordinal[base])
+            ordinal[base] += 1
         return out
 
     def body_sinks(self, body):
@@ -767,7 +774,7 @@ OPTION_PURE = ("next", "checked_sub", "checked_add", "checked_mul", "checked_div
 
 
 class Guard:
-    __slots__ = ("bb", "kind", "op", "L", "R", "Lc", "Rc", "text")
+    __slots__ = ("bb", "kind", "op", "L", "R", "Lc", "Rc", "text", "direct", "negated")
 
     def all(self):
         return self.L | self.R
@@ -789,17 +796,24 @@ class Guards:
             ex = O.switch_cond(bb)
             self._collect(bb, ex)
 
-    def _add(self, bb, kind, op, l, r, text):
+    def _add(self, bb, kind, op, l, r, text, direct=False, negated=False):
         g = Guard()
         g.bb, g.kind, g.op, g.text = bb, kind, op, text
+        g.direct, g.negated = direct, negated
         g.L, g.R = (leaves(l) if l is not None else set()), (leaves(r) if r is not None else set())
         g.Lc, g.Rc = (_constval(l) if l is not None else None), (_constval(r) if r is not None else None)
         self.guards.append(g)
 
     def _collect(self, bb, ex):
+        top = ex
+        neg = False
+        while top[0] in ("un", "cast"):
+            if top[0] == "un" and top[1] == "Not":
+                neg = not neg
+            top = top[2]
         for e in X.walk(ex):
             if e[0] == "bin" and X.norm_op(e[1]) in X.CMP_OPS:
-                self._add(bb, "cmp", X.norm_op(e[1]), e[2], e[3], X.render(e))
+                self._add(bb, "cmp", X.norm_op(e[1]), e[2], e[3], X.render(e), direct=(e is top), negated=neg)
             elif e[0] == "call":
                 nm = X.last_seg(e[1])
                 if nm in ("eq", "ne", "lt", "le", "gt", "ge", "contains", "is_empty", "starts_with", "ends_with",
@@ -816,6 +830,7 @@ class Guards:
                 inner = inner[1]
             if inner[0] == "call" and X.last_seg(inner[1]) in OPTION_PURE:
                 g = Guard()
+                g.direct = g.negated = False
                 g.bb, g.kind, g.op, g.text = bb, "discr", X.last_seg(inner[1]), X.render(ex0)
                 g.L = {"call:%s@%s" % (X.short(inner[1]), inner[4])}
                 if X.last_seg(inner[1]) in X.CHECKED:
@@ -827,6 +842,7 @@ class Guards:
                 self.guards.append(g)
             else:
                 g = Guard()
+                g.direct = g.negated = False
                 g.bb, g.kind, g.op, g.text = bb, "variant", "discr", X.render(ex0)
                 g.L = leaves(inner)
                 g.R = set()
@@ -837,12 +853,36 @@ class Guards:
         return [g for g in self.guards if g.kind in kinds and g.bb != bb and self.body.dominates(g.bb, bb)]
 
 
-def upper_guard(dom, ex):
+def _side(body, g, bb):
+    """which outcome of the comparison dominates block `bb`: True / False / None"""
+    t = body.blocks[g.bb]["term"]
+    if not t or t["k"] != "switch" or len(t["targets"]) != 1:
+        return None
+    tr, fl = t["otherwise"], t["targets"][0]
+    in_t = bb == tr or body.dominates(tr, bb)
+    in_f = bb == fl or body.dominates(fl, bb)
+    if in_t and not in_f and len(body.pred[tr]) == 1:
+        return not g.negated
+    if in_f and not in_t and len(body.pred[fl]) == 1:
+        return g.negated
+    return None
+
+
+def upper_guard(dom, ex, body=None, bb=None):
     """a dominating ordering comparison that can bound `ex` from above (or the Option it was unwrapped from)"""
     ls = leaves(ex)
     if not ls:
         return None
     for g in dom:
+        if g.kind == "cmp" and g.direct and body is not None and g.op in ("Lt", "Le", "Gt", "Ge"):
+            side = _side(body, g, bb)
+            if side is not None:
+                for mine, left in ((g.L, True), (g.R, False)):
+                    if mine & ls:
+                        below = (g.op in ("Lt", "Le")) == left      # `x < c` / `c > x`: true side bounds x from above
+                        if below == side:
+                            return g
+                continue
         if g.kind == "discr":
             if g.L & ls:
                 return g
@@ -898,6 +938,7 @@ def sub_guard(dom, a, b):
                     gb = gb or g
         if third_a & third_b:
             g = Guard()
+            g.direct = g.negated = False
             g.bb, g.kind, g.op, g.L, g.R, g.Lc, g.Rc = ga.bb, "cmp", "transitive", la, lb, None, None
             g.text = "%s and %s (common bound)" % (ga.text, gb.text)
             return g
@@ -943,7 +984,7 @@ def discharge(T, s, guards_cache):
                     "isize": 64, "u128": 128, "i128": 128}.get(lty)
             if bits and 0 <= bi[0] and bi[1] < bits:
                 return ("D2", "shift amount range %s below the width of %s" % (bi, lty))
-            gd = upper_guard(dom, b)
+            gd = upper_guard(dom, b, body, s.bb)
             return ("D1", "dominating comparison `%s`" % gd.text) if gd else None
         if op == "Sub":
             gd = sub_guard(dom, a, b)
@@ -951,7 +992,7 @@ def discharge(T, s, guards_cache):
         need = [e for e, t in ((a, ta), (b, tb)) if t]
         got = []
         for e in need:
-            gd = upper_guard(dom, e)
+            gd = upper_guard(dom, e, body, s.bb)
             if gd is not None:
                 got.append("D1 dominating comparison `%s`" % gd.text)
                 continue
@@ -968,7 +1009,7 @@ def discharge(T, s, guards_cache):
         iv = interval(s.ops[0], body)
         if iv[0] > -(2 ** 7):
             return ("D2", "operand range %s excludes the minimum of its type" % (iv,))
-        gd = upper_guard(dom, s.ops[0])
+        gd = upper_guard(dom, s.ops[0], body, s.bb)
         return ("D1", "dominating comparison `%s`" % gd.text) if gd else None
     if kind in ("assert.DivisionByZero", "assert.RemainderByZero"):
         O = T.origins(body)
@@ -989,7 +1030,7 @@ def discharge(T, s, guards_cache):
         ii = interval(idx, body)
         if li[0] == li[1] and 0 <= ii[0] and ii[1] < li[0]:
             return ("D2", "index range %s below fixed length %d" % (ii, li[0]))
-        gd = upper_guard(dom, idx)
+        gd = upper_guard(dom, idx, body, s.bb)
         if gd:
             return ("D5", "index is compared / produced by `%s`" % gd.text)
         return None
@@ -1007,14 +1048,14 @@ def discharge(T, s, guards_cache):
             iv = interval(e, body)
             if 0 <= iv[0] and iv[1] <= 1 << 20:
                 continue
-            if upper_guard(dom, e) is None:
+            if upper_guard(dom, e, body, s.bb) is None:
                 return None
         return ("D1", "allocation size bounded by a dominating comparison or by its type")
     if kind == "call.panic":
         return None
     # index / slice / split / vec-index …
     for e in tainted_ops:
-        if upper_guard(dom, e) is None:
+        if upper_guard(dom, e, body, s.bb) is None:
             return None
     return ("D5", "arguments compared by a dominating test") if tainted_ops else ("untainted", "")
 
@@ -1084,6 +1125,8 @@ def compact(ex, depth=0):
         return ex[2]
     if k == "assoc":
         return "%s::%s" % (ex[3], ex[2])
+    if k == "upvar":
+        return ex[2]
     if depth >= 2:
         return "…"
     d = depth + 1
